@@ -1,40 +1,78 @@
 use vcore::drive::{install_panic_hook, parse_cli};
 use vcore::Ctx;
 
+// One cargo feature per property module (default = all), so that work in progress in one module cannot break
+// the build of another: `cargo build --release --offline -p vcheck --no-default-features --features c13,c14`.
+#[cfg(feature = "c01")]
 mod c01;
+#[cfg(feature = "c02")]
 mod c02;
+#[cfg(feature = "c03")]
 mod c03;
+#[cfg(feature = "c04")]
 mod c04;
+#[cfg(feature = "c05")]
 mod c05;
+#[cfg(feature = "c06")]
 mod c06;
+#[cfg(feature = "c07")]
 mod c07;
+#[cfg(feature = "c08")]
 mod c08;
+#[cfg(feature = "c09")]
 mod c09;
+#[cfg(feature = "c10")]
 mod c10;
+#[cfg(feature = "c11")]
 mod c11;
+#[cfg(feature = "c12")]
 mod c12;
+#[cfg(feature = "c13")]
 mod c13;
+#[cfg(feature = "c14")]
 mod c14;
+#[cfg(feature = "c15")]
 mod c15;
+#[cfg(feature = "c16")]
 mod c16;
+#[cfg(feature = "c17")]
 mod c17;
+#[cfg(feature = "c18")]
 mod c18;
+#[cfg(feature = "c19")]
 mod c19;
+#[cfg(feature = "c20")]
 mod c20;
+#[cfg(feature = "c21")]
 mod c21;
+#[cfg(feature = "c22")]
 mod c22;
+#[cfg(feature = "c23")]
 mod c23;
+#[cfg(feature = "c24")]
 mod c24;
+#[cfg(feature = "c25")]
 mod c25;
+#[cfg(feature = "c26")]
 mod c26;
+#[cfg(feature = "c27")]
 mod c27;
+#[cfg(feature = "c28")]
 mod c28;
+#[cfg(feature = "c29")]
 mod c29;
+#[cfg(feature = "c30")]
 mod c30;
+#[cfg(feature = "c31")]
 mod c31;
+#[cfg(feature = "c32")]
 mod c32;
+#[cfg(feature = "c33")]
 mod c33;
+#[cfg(feature = "c34")]
 mod c34;
+#[allow(dead_code)]
+mod agconv;
 mod children;
 
 fn main() {
@@ -57,42 +95,76 @@ fn main() {
         }
     }
     match id.as_str() {
+        #[cfg(feature = "c01")]
         "C01" => c01::run(&mut ctx),
+        #[cfg(feature = "c02")]
         "C02" => c02::run(&mut ctx),
+        #[cfg(feature = "c03")]
         "C03" => c03::run(&mut ctx),
+        #[cfg(feature = "c04")]
         "C04" => c04::run(&mut ctx),
+        #[cfg(feature = "c05")]
         "C05" => c05::run(&mut ctx),
+        #[cfg(feature = "c06")]
         "C06" => c06::run(&mut ctx),
+        #[cfg(feature = "c07")]
         "C07" => c07::run(&mut ctx),
+        #[cfg(feature = "c08")]
         "C08" => c08::run(&mut ctx),
+        #[cfg(feature = "c09")]
         "C09" => c09::run(&mut ctx),
+        #[cfg(feature = "c10")]
         "C10" => c10::run(&mut ctx),
+        #[cfg(feature = "c11")]
         "C11" => c11::run(&mut ctx),
+        #[cfg(feature = "c12")]
         "C12" => c12::run(&mut ctx),
+        #[cfg(feature = "c13")]
         "C13" => c13::run(&mut ctx),
+        #[cfg(feature = "c14")]
         "C14" => c14::run(&mut ctx),
+        #[cfg(feature = "c15")]
         "C15" => c15::run(&mut ctx),
+        #[cfg(feature = "c16")]
         "C16" => c16::run(&mut ctx),
+        #[cfg(feature = "c17")]
         "C17" => c17::run(&mut ctx),
+        #[cfg(feature = "c18")]
         "C18" => c18::run(&mut ctx),
+        #[cfg(feature = "c19")]
         "C19" => c19::run(&mut ctx),
+        #[cfg(feature = "c20")]
         "C20" => c20::run(&mut ctx),
+        #[cfg(feature = "c21")]
         "C21" => c21::run(&mut ctx),
+        #[cfg(feature = "c22")]
         "C22" => c22::run(&mut ctx),
+        #[cfg(feature = "c23")]
         "C23" => c23::run(&mut ctx),
+        #[cfg(feature = "c24")]
         "C24" => c24::run(&mut ctx),
+        #[cfg(feature = "c25")]
         "C25" => c25::run(&mut ctx),
+        #[cfg(feature = "c26")]
         "C26" => c26::run(&mut ctx),
+        #[cfg(feature = "c27")]
         "C27" => c27::run(&mut ctx),
+        #[cfg(feature = "c28")]
         "C28" => c28::run(&mut ctx),
+        #[cfg(feature = "c29")]
         "C29" => c29::run(&mut ctx),
+        #[cfg(feature = "c30")]
         "C30" => c30::run(&mut ctx),
+        #[cfg(feature = "c31")]
         "C31" => c31::run(&mut ctx),
+        #[cfg(feature = "c32")]
         "C32" => c32::run(&mut ctx),
+        #[cfg(feature = "c33")]
         "C33" => c33::run(&mut ctx),
+        #[cfg(feature = "c34")]
         "C34" => c34::run(&mut ctx),
         _ => {
-            eprintln!("unknown property {}", id);
+            eprintln!("unknown property {} (or its module is not compiled in)", id);
             std::process::exit(2);
         }
     }
